@@ -31,6 +31,12 @@ func ToInterval(ls orb.LineString, df orb.DistanceFunc, dist float64) orb.LineSt
 		return nil
 	}
 
+	// degenerate case, as in resampleEdgeCases: nothing to measure
+	// (precomputeDistances needs at least one vertex)
+	if len(ls) <= 1 {
+		return ls
+	}
+
 	// precomputes the total distance and intermediate distances
 	total, dists := precomputeDistances(ls, df)
 
